@@ -11,6 +11,8 @@ from __future__ import annotations
 
 import math
 
+import numpy as np
+
 from simkit import gen, scenes, world
 from simkit.core import Counter, EventLog, Outcome, Streams, SutError, Violation
 
@@ -65,6 +67,12 @@ def generate(streams: Streams, tier: str, index: int) -> dict:
             cfg["max_dist"] = crng.choice([None, None, "inf", 0, 0.5, 1.0, 2.5, 6.0, 1000.0, -1])
         cfg["build"] = crng.choice(BUILDS)
         cfg["progress"] = crng.random() < 0.1
+        if crng.random() < 0.2:
+            # the same time course object is tracked again after the caller moved or replaced
+            # one of its droplets in place
+            cfg["retrack"] = {"frame": crng.randrange(64), "drop": crng.randrange(64),
+                              "shift": crng.choice([0.5, 3.0, 30.0, -7.25]),
+                              "kind": crng.choice(["move", "replace"])}
         configs.append(cfg)
     return {"history": hist, "configs": configs}
 
@@ -118,8 +126,35 @@ def execute(case: dict) -> Outcome:
         return Outcome(digest=log.digest(), counters=cnt, events=log.count, log_head=log.head)
     inter = []
     moved_any = False
+    passes = []
     for cfg in case["configs"]:
         etc = build_etc(frames, cfg.get("build", "ctor"))
+        passes.append((cfg, etc, frames, False))
+        if cfg.get("retrack") and any(len(e) for e in etc.emulsions):
+            passes.append((cfg, etc, None, True))
+    small_motion = hist.get("small_motion")
+    for cfg, etc, frames, second in passes:
+        if second:
+            # first tracking done (previous pass): edit the live object in place, track again
+            rt = cfg["retrack"]
+            nonempty = [k for k, e in enumerate(etc.emulsions) if len(e)]
+            k = nonempty[rt["frame"] % len(nonempty)]
+            em = etc.emulsions[k]
+            i = rt["drop"] % len(em)
+            pos = np.array(em[i].position, dtype=float)
+            pos[0] += rt["shift"]
+            if rt["kind"] == "move":
+                em[i].position = pos
+            else:
+                new = em[i].copy()
+                new.position = pos
+                em[i] = new
+            frames = [{**f0, "droplets": [scenes.droplet_spec(d) for d in e]}
+                      for f0, e in zip(hist["frames"], etc.emulsions)]
+            if not world.frames_overlap_free(frames, box, margin):
+                cnt.inc("knife_edge_rejected.retrack_overlap")
+                continue
+            cnt.inc("retrack_passes")
         sig_cfg = {"method": cfg["method"], "grid": str(bool(cfg.get("grid")))}
         try:
             tracks = run_tracking(etc, cfg, box)
@@ -178,7 +213,7 @@ def execute(case: dict) -> Outcome:
                 violations.extend(_check_distance(f, prev, cur, D, link_pairs, cutoff, margin,
                                                   sig_cfg, cnt))
         # O7: small-motion histories keep ground-truth identity
-        if hist.get("small_motion") and (cfg.get("grid") or not any(box["periodic"])) and (
+        if small_motion and not second and (cfg.get("grid") or not any(box["periodic"])) and (
                 cfg["method"] == "overlap" or cutoff == math.inf):
             cnt.inc("identity_histories_checked")
             ok = True
